@@ -8,9 +8,10 @@ Local Open Scope string_scope.
 Local Open Scope list_scope.
 
 Definition zbin (o : binop) (a b : Z) : Z :=
-  match o with OAdd => (a + b)%Z | OSub => (a - b)%Z | OMul => (a * b)%Z | ODiv => (a / b)%Z end.
+  match o with OAdd => (a + b)%Z | OSub => (a - b)%Z | OMul => (a * b)%Z | ODiv => (a / b)%Z
+  | OFloorDiv => (a / b)%Z | OMod => (a mod b)%Z end.   (* Z.div / Z.modulo: floor division, remainder with the sign of the divisor *)
 Definition zun (o : unop) (a : Z) : Z := match o with UNeg => (- a)%Z | UAbs => Z.abs a end.
-Definition zbin_ok (o : binop) (a b : Z) : bool := match o with ODiv => negb (Z.eqb b 0) | _ => true end.
+Definition zbin_ok (o : binop) (a b : Z) : bool := match o with ODiv | OFloorDiv | OMod => negb (Z.eqb b 0) | _ => true end.
 Definition zof_bool (b : bool) : Z := if b then 1%Z else 0%Z.
 
 Notation zrun := (run Z zbin zun zbin_ok Z.ltb Z.leb zof_bool).
